@@ -473,6 +473,59 @@ class HypervChainGates(HypervGates):
                 f"hv_keytab_sigs := {zlist([k for _, k in ksigs])} |}}")
 
 
+class VmxPairsGates(MutantSuite):
+    """Encrypted .vmx files whose key safe lists several passphrase pairs, some naming a pass2key or cipher algorithm that
+    is not one of the module's tables, in front of or behind the pair the passphrase opens: unlocking walks the pairs in
+    order and an unsupported one is never skipped."""
+    name = "vmx_pairs"
+    fmt = "vmx"
+
+    def generate(self, rng, tier):
+        from harness.props import c15
+        out = []
+        shapes = [["good"], ["bad"], ["bad", "good"], ["good", "bad"], ["foreign", "bad", "good"], ["foreign", "good", "bad"],
+                  ["foreign", "foreign", "good"], ["badk", "good"], ["good", "badk"], ["foreign"]]
+        for i, shape in enumerate(shapes * (3 if tier == "thorough" else 1)):
+            b = c15.base_case(rng, i, "quick")
+            good = b["pairs"][b["good"]]
+            K = bytes.fromhex(good["K"])
+            pairs, flags = [], []
+            for kind in shape:
+                if kind == "good":
+                    pairs.append(good)
+                    flags.append([True, True])
+                    continue
+                q = c15.new_pair(rng, tuple(b["combo"]), b["pw"] + ("" if kind.startswith("bad") else "-other"), K)
+                if kind == "bad":
+                    q["cipher"] = rng.pick(["AES-512", "AES-257", "DES", ""])
+                elif kind == "badk":
+                    q["p2k"] = rng.pick(["PBKDF2-HMAC-SHA-512", "scrypt", "PBKDF2"])
+                pairs.append(q)
+                flags.append([not kind.startswith("bad"), False])
+            b["pairs"] = pairs
+            b.pop("top", None)
+            opens = any(f == [True, True] for f in flags) and all(f[0] for f in flags[:[k for k, f in enumerate(flags) if f[1]][0]]) \
+                if any(f[1] for f in flags) else False
+            out.append({"text": c15.render_vmx(b), "pw": b["pw"], "flags": flags, "mut": ["pairs"] + shape,
+                        "must_reject": not opens, "must_accept": opens})
+        return out
+
+    def impl(self, case):
+        from dissect.hypervisor.descriptor.vmx import VMX
+
+        def go():
+            v = VMX.parse(case["text"])
+            v.unlock_with_phrase(case["pw"])
+            return len(v.attr)
+        return self.attempt(go)
+
+    def coq_term(self, case):
+        return "vmx_pairs_gate [" + "; ".join(f"({cbool(a)}, {cbool(b)})" for a, b in case["flags"]) + "]"
+
+    def nontrivial(self, case, impl_res, coq_val):
+        return core.sha(core.jdump(case["mut"]).encode() + case["text"].encode())
+
+
 # ----------------------------------------------------------------------------- envelope / keystore / key safe / VMDK sparse header
 class EnvelopeGates(MutantSuite):
     name = "envelope"
@@ -610,6 +663,37 @@ class VmdkSparseGates(MutantSuite):
         return f"vmdk_layout_gate {zlist(list(mg[:4]))} {int.from_bytes(mg, 'little')}"
 
 
+class VmdkSparseViaDescriptor(VmdkSparseGates):
+    """the same mutants reached through a text descriptor on disk that declares the extent SESPARSE: what the descriptor
+    declares sparse goes through the sparse header's gates (it is not served as raw bytes when its magic is foreign)"""
+    name = "vmdk_sparse_desc"
+
+    def impl(self, case):
+        import shutil
+        import tempfile
+        from pathlib import Path
+        from dissect.hypervisor.disk.vmdk import VMDK
+        buf = bytearray(gzip.open(os.path.join(DATA, "sesparse.vmdk.gz")).read(4 * MB))
+        mg = bytes.fromhex(case["magic"])
+        buf[0:len(mg)] = mg
+        cap = struct.unpack_from("<Q", buf, 16)[0]
+        tmp = tempfile.mkdtemp(prefix="verif_c12d_")
+        try:
+            with open(os.path.join(tmp, "disk-sesparse.vmdk"), "wb") as fh:
+                fh.write(buf)
+            with open(os.path.join(tmp, "disk.vmdk"), "w") as fh:
+                fh.write('# Disk DescriptorFile\nversion=1\nCID=fffffffe\nparentCID=ffffffff\ncreateType="seSparse"\n'
+                         f'RW {cap} SESPARSE "disk-sesparse.vmdk"\n')
+
+            def go():
+                v = VMDK(Path(tmp) / "disk.vmdk")
+                v.read(512)
+                return v.size
+            return self.attempt(go)
+        finally:
+            shutil.rmtree(tmp, ignore_errors=True)
+
+
 class VmdkHostedGates(MutantSuite):
     """hosted (KDMV, with header- or footer-located grain directory) and COWD extents: header and footer magic"""
     name = "vmdk_hosted"
@@ -743,5 +827,5 @@ class Qcow2Gates(MutantSuite):
                 f"q_backing_offset := {g('backing_file_offset')}; q_data_file_given := false; q_backing_given := false |}}")
 
 
-SUITES = {"qcow2": Qcow2Gates(), "vmdk_hosted": VmdkHostedGates(), "vhdx": VhdxGates(), "vdi": VdiGates(), "hds": HdsGates(), "hdd": HddGates(), "hyperv": HypervGates(), "hyperv_chain": HypervChainGates(),
-          "envelope": EnvelopeGates(), "text": TextGates(), "vmdk_sparse": VmdkSparseGates()}
+SUITES = {"qcow2": Qcow2Gates(), "vmdk_hosted": VmdkHostedGates(), "vhdx": VhdxGates(), "vdi": VdiGates(), "hds": HdsGates(), "hdd": HddGates(), "hyperv": HypervGates(), "hyperv_chain": HypervChainGates(), "vmx_pairs": VmxPairsGates(),
+          "envelope": EnvelopeGates(), "text": TextGates(), "vmdk_sparse": VmdkSparseGates(), "vmdk_sparse_desc": VmdkSparseViaDescriptor()}
